@@ -25,7 +25,7 @@ func replayC04(i int, raw json.RawMessage, seed int64) hx.Result {
 		return replayProbe(&r)
 	}
 	nt := fmt.Sprintf("tamper|fmt%d|algo%d|%s|%s|%s|red=%v|id=%v|sig=%d", r.IDFmt, algoOf(r.Ver), r.Proto.Type,
-		strings.Join(sorted(r.T), ","), r.HM, r.Red, r.IDSame, len(r.Valid))
+		strings.Join(sorted(r.T), ","), r.HM, r.Red, r.IDSame, len(r.Valid)) + fmt.Sprintf("|pre=%s|noop=%v", r.Pre, r.Noop)
 	if res := runC04(&r, i, seed); res != nil {
 		res.NT = nt
 		return *res
